@@ -414,7 +414,13 @@ func (w *kqueue) addWatch(name string, flags uint32, listDir bool) (string, erro
 
 	err := w.register([]int{info.wd}, unix.EV_ADD|unix.EV_CLEAR|unix.EV_ENABLE, flags)
 	if err != nil {
-		unix.Close(info.wd)
+		// Only close what we opened above. For a path that was already
+		// watched the descriptor belongs to that watch, and if that watch was
+		// removed in the meantime (which is why registering fails) the number
+		// may already be someone else's.
+		if !alreadyWatching {
+			unix.Close(info.wd)
+		}
 		return "", err
 	}
 
